@@ -187,7 +187,10 @@ def q_text(q):
     if q.get("groupby"):
         tail += " GROUP BY " + " ".join(e_text(x) for x in q["groupby"])
     if "having" in q:
-        tail += " HAVING(%s)" % e_text(q["having"])
+        h = q["having"]      # {"agg": aggregate, "op": ">", "n": int}: HAVING sees aggregates, not SELECT aliases
+        inner = agg_text(dict(h["agg"], **{"as": "zz"}))
+        inner = inner[1:inner.rindex(" AS ?")]
+        tail += " HAVING(%s %s %d)" % (inner, h["op"], h["n"])
     if q.get("orderby"):
         tail += " ORDER BY " + " ".join(("DESC(%s)" if k["desc"] else "ASC(%s)") % e_text(k["e"]) for k in q["orderby"])
     if "limit" in q:
@@ -291,7 +294,8 @@ def result_of(res, form):
     if form == "construct":
         return {"k": "construct", "triples": [[abst(x) for x in t] for t in res.graph]}
     return {"k": "select", "vars": [str(v) for v in (res.vars or [])],
-            "rows": [{str(k): abst(v) for k, v in b.items()} for b in res.bindings]}
+            # a variable mapped to None is unbound
+            "rows": [{str(k): abst(v) for k, v in b.items() if v is not None} for b in res.bindings]}
 
 
 def init_bindings(e):
